@@ -23,6 +23,8 @@ BENIGN_PROPS = {
     "B4": ["C08", "C09", "C10", "C11", "C19"],
     "B5": ["C12", "C13", "C19", "C04"],
     "B7": ["C15", "C06", "C14", "C04", "C03", "C05"],
+    "B8": ["C17"],
+    "B9": ["C15", "C06", "C14", "C04", "C05", "C02", "C03"],
 }
 
 
